@@ -3,7 +3,7 @@
 1, 2 and 16 databases; every transition replayed by harness/cmd/seltour on one real Manager shared by several
 Manager.Handle connections (net.Pipe), comparing replies and the contents of every database; then a few model
 behaviours are replayed over TCP against the real server binary."""
-import json, os, random, subprocess
+import concurrent.futures, json, os, random, subprocess
 import common, ks, server
 
 tier = common.tier_arg()
@@ -37,7 +37,8 @@ for cfg, ndb, sample in plan:
     edge_files[ndb] = table
 
 # ---- TCP: random walks of the 2-database model on the real binary with 3 real connections ----
-rnd = random.Random(common.seed())
+seed = common.seed()
+rnd = random.Random(seed)
 edges = {}
 init = None
 for line in open(edge_files[2]):
@@ -98,6 +99,40 @@ try:
 finally:
     srv.stop()
 cov["tcp_walks"] = walks
+# ---- concurrent connections: SELECT (in half of the histories the first-ever SELECT of one index by all connections at
+# once) mixed with single-key commands; selection tracked per connection; the whole server must be linearizable as ONE
+# keyspace over the names d<i>:<key> (TraceLin.tla), read back sequentially through a fresh connection
+import conc
+tool = ks.build_tool("selconc")
+dsel = common.scratch("c20conc-")
+nhist = 240 if tier == "quick" else 4000
+nproc = 8
+def _one(i):
+    path = os.path.join(dsel, "sel-%d.ndjson" % i)
+    p = subprocess.run([tool, "-seed", str(seed * 100 + i), "-hist", str(nhist // nproc), "-out", path], stdout=subprocess.PIPE, stderr=subprocess.PIPE, text=True, timeout=1500)
+    return path, p
+cov["concurrent"] = {"histories": 0, "operations": 0, "selects": 0, "histories_with_concurrent_first_select": 0}
+with concurrent.futures.ThreadPoolExecutor(max_workers=nproc) as ex:
+    for path, p in ex.map(_one, range(nproc)):
+        summ = None
+        for line in p.stdout.splitlines():
+            if line.startswith("SUMMARY "):
+                summ = json.loads(line[8:])
+            elif line.startswith("{"):
+                a = json.loads(line)
+                v.report({"branch": "select.concurrent", "kind": a["kind"], "detail": ""}, a, what="concurrent connections, history %s: %s" % (a["h"], a["detail"]))
+        if p.returncode != 0 or summ is None:
+            first = [l for l in p.stderr.splitlines() if l.strip()][:1]
+            v.report({"branch": "select.concurrent", "kind": "process-death", "detail": (first[0] if first else "")[:80]}, {"stderr": p.stderr[-3000:]},
+                     what="the server process died under concurrent SELECT + commands: %s" % (first[0] if first else p.returncode))
+            continue
+        for k in cov["concurrent"]:
+            cov["concurrent"][k] += summ[k]
+        nonlin, _ = conc.validate_hist(path)
+        for n in nonlin:
+            v.report({"branch": "select.concurrent", "kind": "nonlinearizable", "detail": ""}, {"history": conc.history_of(path, n["h"]), "file": path},
+                     what="connections in the same database disagree (history %s not linearizable over d<i>:<key>):\n  %s" % (n["h"], "\n  ".join(conc.history_of(path, n["h"])[:40])))
+cov["traces_validated_against_impl"] += cov["concurrent"]["histories"]
 cov["samples"].append({"kind": "B1 edge", "example": "after c1: SELECT 1, c2: SET k a must write database 0 (c2 never selected)"})
 v.finish(tier, "model_checking", cov, ["spec/Select.tla over Keyspace.Exec for the data commands", "databases in {1, 2, 16}; 2 connections in B1",
                                        "the 16-database instance is label-sampled in the quick tier (every state is still reached)"])
